@@ -49,6 +49,14 @@ func c03Datasets() map[string][]string {
 			ev(3, 1, `"v":2,"f":3.5,"g":"B","m":"Foo Bar"`),
 			ev(4, 2, `"v":9,"f":4.5,"g":"B","m":"bar"`),
 		},
+		// a column that starts with a non-numeric string and goes on with numbers (numeric measures over it take the numbers)
+		"mixnum": {
+			ev(0, 0, `"v":1,"f":1.5,"g":"A","m":"foo","x":"n/a"`),
+			ev(1, 1000, `"v":2,"f":2.5,"g":"B","m":"foo","x":5`),
+			ev(2, 1500, `"v":3,"f":3.5,"g":"A","m":"bar","x":7`),
+			ev(3, 2000, `"v":4,"f":4.5,"g":"B","m":"bar","x":10`),
+			ev(4, 61000, `"v":5,"f":5.5,"g":"A","m":"foo","x":2`),
+		},
 		// spellings that differ only in case (equality is case-insensitive, dictionary words are not)
 		"case": {
 			ev(0, 0, `"v":1,"f":1.5,"g":"a","m":"Error"`),
@@ -72,6 +80,7 @@ var c03Queries = []c03Query{
 	{"* | stats count by m", false, "stats-by"},
 	{"* | sort v, f, id | fields id, v, f", true, "sort"}, {"* | sort -f, v | head 2", true, "sort"}, {"* | eval w=v*2 | where w>4 | fields id, w", false, "eval-where"},
 	{"* | dedup g | fields g", false, "dedup"}, {"* | top 1 g", false, "top"},
+	{"* | stats sum(x), avg(x), min(x), max(x)", false, "stats-mixed-column"}, {"g=A | stats sum(x), max(x)", false, "filter-stats-mixed-column"},
 	{"g=a", false, "filter-str"}, {"g=B", false, "filter-str"}, {"m=error", false, "filter-str"}, {"m=ERROR", false, "filter-str"}, {"m!=error", false, "filter-str"},
 }
 
@@ -377,7 +386,7 @@ func C03() int {
 			} else {
 				lays = append(StdLayouts(5), Layout{"r-r-r-r-r", []int{2, 2, 2, 2, 2}}, Layout{"f-r-f-r-f", []int{1, 2, 1, 2, 1}}, Layout{"0-2-0-0-2", []int{0, 2, 0, 0, 2}})
 			}
-			names := []string{"plain", "dups", "case"}
+			names := []string{"plain", "dups", "case", "mixnum"}
 			for _, ds := range names {
 				for _, l := range lays {
 					for _, c := range []int{2, 501} {
